@@ -19,6 +19,8 @@ func init() {
 			{ID: "C10-R4", Doc: "heap repaired after every cursor move", Run: c10r4},
 			{ID: "C10-R5", Doc: "sticky terminal state", Run: c10r5},
 			{ID: "C10-R6", Doc: "combined value stored before refill", Run: c10r6},
+			{ID: "C10-R7", Doc: "the sorter's fill frame is resized to a size clamped from below by a positive constant", Run: c10r7},
+			{ID: "C17-R7", Doc: "no compound nil/end-of-stream test is constant (shared)", Run: c17r7},
 		},
 	})
 }
@@ -120,7 +122,7 @@ func c10r2(c *RC) {
 		Enter: func(from, to *cfg2Block, x string, s *Step) (string, bool) {
 			// the constructor's own failure branch owns nothing
 			if from == loc.B {
-				if be, ok := ast.Unparen(fl.edgeCond(from)).(*ast.BinaryExpr); ok && be.Op == token.NEQ && expr(be.Y) == "nil" && from.Succs[0] == to {
+				if _, ok := nonNilEdge(fl, from, to); ok {
 					return x, true
 				}
 			}
@@ -224,7 +226,7 @@ var eofTable = map[string]struct {
 	"sliceio.(*decodingReader).Read": {[][2]string{{"$r.err", "io.EOF"}}, "byte stream ended at a batch boundary"},
 	"exec.(*taskBufferReader).Read":  {nil, "buffer index reached the end (switch case len(r.q) == r.i)"},
 	".(*constReader).Read":           {[][2]string{{"$int", "0"}}, "shard frame exhausted"},
-	".(*flatmapReader).Read":         {[][2]string{{"$r.eof", "true"}}, "upstream ended and buffers drained"},
+	".(*flatmapReader).Read":         {[][2]string{{"$r.eof", "true"}, {"$r.out.Len()", "0"}, {"$r.begIn==$r.endIn", "true"}}, "upstream ended, no buffered output and no unexpanded input"},
 	".(*headReader).Read":            {[][2]string{{"$r.n<=0", "true"}}, "quota used up"},
 	".(*scanReader).Read":            {[][2]string{{"$error", "nil"}}, "scan callback finished"},
 	".(*stringAccumulator).Read":     {[][2]string{{"len($r.state)", "0"}}, "accumulator drained"},
@@ -478,11 +480,11 @@ func stickyFirst(c *RC, fn *Func) string {
 				continue
 			}
 			if ifs, ok := st.(*ast.IfStmt); ok {
-				if be, ok := ast.Unparen(ifs.Cond).(*ast.BinaryExpr); ok && be.Op == token.NEQ && expr(be.Y) == "nil" {
+				if tx, nonNil, ok := nilTest(ifs.Cond); ok && nonNil {
 					for _, s2 := range ifs.Body.List {
-						if ret, ok := s2.(*ast.ReturnStmt); ok && len(ret.Results) == 2 && expr(ret.Results[1]) == expr(be.X) {
+						if ret, ok := s2.(*ast.ReturnStmt); ok && len(ret.Results) == 2 && expr(ret.Results[1]) == tx {
 							if v, ok := constInt(fn.Pkg, ret.Results[0]); ok && v == 0 {
-								sticky = expr(be.X)
+								sticky = tx
 							}
 						}
 					}
@@ -532,16 +534,8 @@ func c10r5(c *RC) {
 						fmt.Sprintf("the reader returns %s without first storing it in %s: the next Read carries on past the failed input", ev, sticky))
 				case *ast.IfStmt:
 					ev := inErr
-					if be, ok := ast.Unparen(x.Cond).(*ast.BinaryExpr); ok {
-						first := be
-						if be.Op == token.LAND {
-							if b2, ok := ast.Unparen(be.X).(*ast.BinaryExpr); ok {
-								first = b2
-							}
-						}
-						if first.Op == token.NEQ && expr(first.Y) == "nil" && !strings.Contains(expr(first.X), ".") {
-							ev = expr(first.X)
-						}
+					if nm, ok := impliesError(x.Cond); ok && !strings.Contains(nm, ".") {
+						ev = nm
 					}
 					visit(x.Body.List, ev)
 					switch e := x.Else.(type) {
@@ -561,8 +555,8 @@ func c10r5(c *RC) {
 						cc := cs.(*ast.CaseClause)
 						ev := inErr
 						if len(cc.List) == 1 {
-							if be, ok := ast.Unparen(cc.List[0]).(*ast.BinaryExpr); ok && be.Op == token.NEQ && expr(be.Y) == "nil" {
-								ev = expr(be.X)
+							if tx, nonNil, ok := nilTest(cc.List[0]); ok && nonNil {
+								ev = tx
 							}
 						}
 						visit(cc.Body, ev)
